@@ -57,6 +57,12 @@ func attached(tag int) interface{} {
 		return errors.New("attached error")
 	case 20:
 		return &derefErr{msg: "m"}
+	case 21: // values that are themselves ErrVals: a later Set replaces the earlier value, it does not merge into it
+		return parser.ErrVals{"a": 1}
+	case 22:
+		return parser.ErrVals{"b": 2, "c": "x"}
+	case 23:
+		return map[string]interface{}{"b": 2}
 	}
 	return nil
 }
